@@ -105,6 +105,8 @@ def _one(args):
             inst = hermitian.gen_instance(rng, d=d, k=k, N=N, vtype=vtype, corner=corner, **kw)
         except Regenerate:
             continue
+        # every other numpy / sparse instance presents integer-valued terms (H_0 = np.diag of ints) in int64
+        inst["int_dtype"] = vtype in ("numpy", "sparse") and (idx // len(VTYPES)) % 2 == 0
         desc = hermitian.describe(inst)
         try:
             sess = hermitian.make_session(inst, idx + 1, p, spectrum=1 if (spectrum and inst["d"] <= 5) else 0)
